@@ -1,7 +1,7 @@
 /-
   Driver for the rekey bookkeeping model (C10).  One request = one whole trace:
     run <rp> <rb> <op> <ob> <ops…>     ops: s<len> r<len> o (set_outbound) i (set_inbound) t (loop top) k (peer KEXINIT)
-    readall <need 0/1> <check_rekey 0/1> <n> <events: d<k> | t …>   → ok <events used> | rekey <bytes lost> | eof <bytes got>
+    readall <need 0/1> <check_rekey 0/1> <n> <events: d<k> | t | e (EAGAIN) …>   → ok <events used> | rekey <bytes lost> | eof <bytes got>
     comp <none|zlib|delayed> <o (NEWKEYS sent) | i (NEWKEYS received) | a (_auth_trigger) …>
         → <installsOut> <installsIn> <compOutGen|-> <compInGen|-> <outGen> <inGen>
   reply of run: one character per op (0 nothing pending, 1 rekey requested, E overflow error raised; ops after an
@@ -27,7 +27,7 @@ def runTrace (L : Limits) (ops : List Op) : String :=
   s!"{String.ofList fl.reverse} {s.sentPackets} {s.sentBytes} {s.recvPackets} {s.recvBytes} {s.ovPackets} {s.ovBytes} {s.initCount} {b s.inKex} {s.kexInits}"
 
 def parseEv (t : String) : Option SockEv :=
-  if t == "t" then some .timeout else if t.startsWith "d" then (t.drop 1).toNat?.map .data else none
+  if t == "t" then some .timeout else if t == "e" then some .eagain else if t.startsWith "d" then (t.drop 1).toNat?.map .data else none
 
 def showRead : ReadResult → String
   | .ok u => s!"ok {u}"
